@@ -263,6 +263,16 @@ func sigNames(sig *types.Signature, recvName string) []string {
 }
 
 func (fx *FuncCtx) funcFieldKey(v ssa.Value) string {
+	// value loaded from a captured variable of a closure: <outermost function>.<variable>
+	if u, ok := v.(*ssa.UnOp); ok && u.Op == token.MUL {
+		if fv, ok := u.X.(*ssa.FreeVar); ok {
+			p := fv.Parent()
+			for p.Parent() != nil {
+				p = p.Parent()
+			}
+			return p.Name() + "." + fv.Name()
+		}
+	}
 	// value loaded from a field: UnOp{*}(FieldAddr)
 	if u, ok := v.(*ssa.UnOp); ok && u.Op == token.MUL {
 		if fa, ok := u.X.(*ssa.FieldAddr); ok {
@@ -694,7 +704,7 @@ func (fx *FuncCtx) havocLocation(st *State, env *Env, m ast.Expr, text string) {
 				if at == "" {
 					at, _ = fx.ptrTerm(st, a)
 				}
-				_, inner := arraySorts(g.Sort)
+				_, inner := arraySorts(fx.theorySort(g.Sort))
 				fx.heapSet(st, "G$"+g.Name, g.Sort, "(store "+h+" "+at+" "+fx.declare("modg", inner)+")")
 				return
 			}
